@@ -34,15 +34,17 @@ def record(ctx: Ctx):
     d = root / tree_hash()
     if (d / "summary.json").exists():
         return d, True
-    for old in root.iterdir():          # one recording at a time (disk)
+    import time
+    for old in root.iterdir():          # keep the disk small: drop other trees' recordings and stale partial ones
+        if old.name.endswith(".part") and time.time() - old.stat().st_mtime < 3600:
+            continue                    # another check may be recording right now
         shutil.rmtree(old, ignore_errors=True)
-    tmp = root / (d.name + ".part")
-    shutil.rmtree(tmp, ignore_errors=True)
+    tmp = root / f"{d.name}.{os.getpid()}.part"
     env = dict(os.environ, VF_SUITE_TRACE_DIR=str(tmp), ICALENDAR_VERIF="1", PYTHONHASHSEED="0",
                PYTHONPATH=f"{REPO / 'src'}:{VERIF}")
     try:
         p = subprocess.run([sys.executable, "-m", "pytest", "-q", "-p", "no:cacheprovider", "-p", "vf.suitetrace",
-                            "--timeout=900", "--continue-on-collection-errors"],
+                            "--timeout=900", "--continue-on-collection-errors", "--hypothesis-seed=0"],
                            cwd=REPO, env=env, capture_output=True, text=True, timeout=3000)
     except subprocess.TimeoutExpired:
         raise Machinery("the repository's test-suite did not finish under the tracing plugin")
@@ -53,7 +55,10 @@ def record(ctx: Ctx):
         raise Machinery(f"the traced suite collected only {summ.get('tests')} tests")
     summ["pytest_tail"] = p.stdout.strip().splitlines()[-1:]
     (tmp / "summary.json").write_text(json.dumps(summ, indent=1))
-    tmp.rename(d)
+    try:
+        tmp.rename(d)
+    except OSError:                     # another process finished the same recording first
+        shutil.rmtree(tmp, ignore_errors=True)
     return d, False
 
 
@@ -122,7 +127,19 @@ FAMILIES = {
     "join": ("Trace_ContentLine", ["P:C01", "P:C05", "P:C08"], 500),
     "cdict": ("Trace_CaselessMap", ["P:C17"], 2000),
     "lines": ("Trace_ParserLines", ["P:C04"], 2000),
+    "values": ("Trace_ValueCodecs", ["P:C03"], 500),
 }
+
+def step(ctx: Ctx, family: str, prefixes=None, case_of=None):
+    """the SUITE step of a property check: validate one family of the traced suite run, keeping only the
+    clauses of this property (prefixes); returns the number of events"""
+    mod, pref, mn = FAMILIES[family]
+    n = validate(ctx, family, mod, prefixes or pref, min_events=mn, whole_groups=(family == "lines"), case_of=case_of)
+    ctx.assumptions.append(
+        f"SUITE: calls of the modelled functions observed while the repository's own test-suite runs ({family} family, "
+        "de-duplicated, arguments up to 200 characters) are validated by TLC against the same trace specification")
+    return n
+
 
 if __name__ == "__main__":
     # debugging aid: validate every family of the current tree's recording and print what fails
